@@ -20,8 +20,10 @@ meta = {
         "commands": ["cargo test --offline --test <demo> (unmodified source): pass",
                      "git apply patch.diff; cargo test --offline --test <demo>: fail",
                      "demo moved away; cargo test --workspace --no-fail-fast --offline: pass"]},
-    "checks_run": "tools/seed_eval.sh: git -C /repo apply patch.diff; ./check <each id> --tier quick; git -C /repo checkout -- .",
+    "checks_run": "tools/seed_eval.sh (PAR=1: the scratch worktree with the change applied is the checkout under test, VERIF_REPO): ./check <each id> --tier quick",
     "caught_by": caught,
+    "caught_with_a_concrete_failing_input_by": sorted(set(
+        mm.group(1) for mm in re.finditer(r"VIOLATION property=(C\d+) replay=\S+\s*$", checks, flags=re.M))),
 }
 json.dump(meta, open(os.path.join(d, "meta.json"), "w"), indent=1)
 print(name, prop, caught)
